@@ -92,6 +92,15 @@ fn main() {
             let lim = ["9223372036854775807", "-9223372036854775807", "(-9223372036854775807 - 1)", "4611686018427387904", "-4611686018427387905", "2147483648", "2", "-2", "1", "-1", "0"];
             for a in lim { for b in lim { for op in ["+", "-", "*", "/"] { put(format!("min x\ns.t.\n x >= k\nwhere\n let k = {} {} {}\ndefine\n x as Real", a, op, b), "limits"); } } }
             for a in lim { put(format!("min x\ns.t.\n x_{{{}}} >= 1\ndefine\n x_i as Real for i in {}..{}", a, a, a), "limits"); put(format!("min x\ns.t.\n x >= sum(i in {}..={}) {{ i }}\ndefine\n x as Real", a, a), "limits"); }
+            // literal indexes beyond every integer type, identifiers that begin with a multi-byte letter, destructuring patterns wider
+            // than the data (accepted by the type checker for arrays of rows: the transformer must answer with an error)
+            for ix in ["99999999999999999999", "18446744073709551616", "9223372036854775808", "-9223372036854775809", "340282366920938463463374607431768211456"] {
+                put(format!("min x_{ix}\ns.t.\n x_{ix} >= 1\ndefine\n x_{ix} as Real"), "limits"); put(format!("min x\ns.t.\n x >= 1\n c_{ix}: x <= 2\ndefine\n x as Real"), "limits"); }
+            for nm in ["\u{e9}", "_\u{e9}", "\u{f1}x", "x\u{e9}", "\u{3b1}", "\u{3b1}_1", "\\\u{e9}_1", "\u{4e2d}\u{6587}"] {
+                put(format!("min {nm}\ns.t.\n {nm} >= 1\n lim: {nm} <= 4\ndefine\n {nm} as Real"), "limits"); put(format!("min x\ns.t.\n {nm}: x >= 1\nwhere\n let {nm}k = 2\ndefine\n x as Real"), "limits"); }
+            for pat in ["(a, b, c)", "(a, b, c, d)", "(a)", "(a, b)"] { for src in ["rows", "enumerate(rows)", "edges(G)", "zip(rows, rows)", "rows[0]"] {
+                put(format!("min x\ns.t.\n x >= sum({pat} in {src}) {{ 1 }}\nwhere\n let rows = [[1, 2], [3, 4]]\n let G = Graph {{ A -> [B: 2], B }}\ndefine\n x as Real"), "limits");
+                put(format!("min x\ns.t.\n x >= 1 for {pat} in {src}\nwhere\n let rows = [[1, 2], [3, 4]]\n let G = Graph {{ A -> [B: 2], B }}\ndefine\n x as Real"), "limits"); } }
             // indexes at and around the length, names used more than once
             for ix in ["len(A)", "3", "2", "len(A) - 1", "len(A) + 1", "-1", "0 - 1", "len(A) * 2"] { put(format!("min x\ns.t.\n x >= A[{}]\n x >= M[1][{}]\nwhere\n let A = [4, 5, 6]\n let M = [[1], [2, 3, 4]]\ndefine\n x as Real", ix, ix), "limits"); }
             for k in 2..6 { let rows: Vec<String> = (0..k).map(|j| format!(" c: x >= {}", j)).collect(); put(format!("min x\ns.t.\n{}\ndefine\n x as Real", rows.join("\n")), "limits");
